@@ -109,3 +109,38 @@ def qcheck [BEq α] (N M lw : Nat) (q : QState α) (e : Ev α) (o : Out α) : Li
        yld := q.yld + (if yields then 1 else 0) })
 
 end Gatery.C15
+
+namespace Gatery.C15
+variable {α : Type}
+
+/-- The same queue specification for the ready/valid wrapper `strm::fifo`: `accept` = `in.valid ∧ in.ready`,
+`yield` = `out.valid ∧ out.ready`.  With a fall-through FIFO (`fall`) a beat may be accepted and yielded in the
+same cycle while nothing is held. `q.queue` ages count clock cycles. -/
+def scheck [BEq α] (N lw : Nat) (fall : Bool) (q : QState α) (rst inValid : Bool) (d : α) (outReady : Bool)
+    (inReady outValid : Bool) (outData : α) : List String × QState α :=
+  if rst then ((if inValid then ["valid-during-reset"] else []), q)
+  else
+    let accept := inValid && inReady
+    let yield := outValid && outReady
+    let direct := fall && q.queue.isEmpty && accept && yield   -- passes straight through
+    let v2 := if accept && !direct && q.queue.length ≥ N then ["accept-when-full"] else []
+    let v3 := if yield then
+                match q.queue with
+                | [] => if direct then (if d == outData then [] else ["wrong-item"]) else ["yield-when-empty"]
+                | (x, _) :: _ => if x == outData then [] else ["wrong-item"]
+              else []
+    let v4 := if outValid then
+                match q.queue with
+                | [] => if fall && inValid then (if d == outData then [] else ["wrong-item-exposed"]) else ["exposes-nothing"]
+                | (x, _) :: _ => if x == outData then [] else ["wrong-item-exposed"]
+              else []
+    let v7 := match q.queue with
+              | (_, age) :: _ => if !outValid && age + 1 ≥ lw then ["not-exposed"] else []
+              | [] => if fall && inValid && !outValid then ["not-exposed"] else []
+    let q1 := if yield && !direct then q.queue.drop 1 else q.queue
+    let q2 := q1.map (fun (x, a) => (x, a + 1))
+    let q3 := if accept && !direct then q2 ++ [(d, 0)] else q2
+    (v2 ++ v3 ++ v4 ++ v7,
+     { q with queue := q3, acc := q.acc + (if accept then 1 else 0), yld := q.yld + (if yield then 1 else 0) })
+
+end Gatery.C15
